@@ -460,10 +460,8 @@ def check_ceiling(case):
     x = np.nan_to_num(a)
     try:
         want_lo, want_up = cref.ceilings(x, cref.groups_of(case['groups']), method, n=n, keep=keep)
-    except ZeroDivisionError:
-        raise Reject('pooled vector vanishes', 'degenerate:zero-pool')
-    if not (np.isfinite(want_lo) and np.isfinite(want_up)):
-        raise Reject('undefined similarity', 'degenerate:zero-pool')
+    except cref.Degenerate as e:
+        raise Reject(str(e), 'degenerate:zero-pool')
     what = 'boot_noise_ceiling(%s) with %d missing entries' % (method, int((~keep).sum()))
     require_close(lo, want_lo, what + ': lower bound vs leave-one-group-out on the remaining entries',
                   sig + ':lower', rtol=1e-9, atol=1e-9)
